@@ -611,7 +611,7 @@ func runC15Conc(ctx *Ctx, bin string, c C15Case, goroutines, rounds int) (clause
 
 func c15Family(ctx *Ctx) error {
 	res := ctx.Res
-	res.Rule = "each case is a history over a pool of message groups: CoalesceMessages / ResolveIDs (package caches with hard-coded users, and caller-made caches) in any order, groups coalesced repeatedly, all returned events held; after every step the monitor compares every held event (flattened and as JSON) with how it read when returned, every used message's Data()/Tags()/ToMapStr() with an untouched twin parsed from the same text, and a repeated coalesce with the first result; the same steps run on Model.CoalesceHeap (message cache cells, table slices with the regenerated len/cap) and the whole pool is compared after every step. Plus one concurrent soak per run in a child process built with -race. Non-trivial = the history holds several events, repeats a coalesce or resolves IDs; distinct by hash of pool and history."
+	res.Rule = "each case is a history over a pool of message groups: CoalesceMessages / ResolveIDs (package caches with hard-coded users, and caller-made caches) in any order, groups coalesced repeatedly, all returned events held; after every step the monitor compares every held event (flattened and as JSON) with how it read when returned, every used message's Data()/Tags()/ToMapStr() with an untouched twin parsed from the same text, and a repeated coalesce with the first result; the same steps run on Model.CoalesceHeap (message cache cells, table slices with the regenerated len/cap) and the whole pool is compared after every step. Plus one concurrent soak per run in a child process built with -race, and one pair of children in a private mount namespace whose user database has two names for one id (an event resolved alone and after events that name the aliases). Non-trivial = the history holds several events, repeats a coalesce or resolves IDs; distinct by hash of pool and history."
 	res.Assumptions = append(res.Assumptions,
 		"user/group names outside the hard-coded entries come from the host's user database; the oracle asks os/user the same questions the library's lookupFn asks",
 		"data-race freedom is observed (race detector, runtime map checks) on the generated concurrent workload, not proved")
